@@ -515,6 +515,17 @@ def r3(run: Run, src, em):
         run.check(p in seen_ops, 'C12.R3', f'LambdaTokenTranslator/prefix {p}', f'missing-prefix:{p}',
                   f'the criterion prefix `{p}` is not recognised: "{p}5" is compared as the text \'{p}5\' instead of as a comparison '
                   f'with 5', fact='recognised', loc=loc)
+    # a criterion whose wildcards are ALL escaped ("a~*") lexes as an ordinary text literal; the equality arm then compares with
+    # the text including its tilde, unless the tilde escape is undone somewhere on that path
+    lt = src.cls('LiteralToken') if src.has_cls('LiteralToken') else None
+    fns = [m.node for m in tr.methods.values()] + ([m.node for m in lt.methods.values()] if lt else [])
+    handles_tilde = any(isinstance(c, ast.Constant) and isinstance(c.value, str) and '~' in c.value for f_ in fns for c in ast.walk(f_))
+    if not handles_tilde:
+        run.bad('C12.R3', 'LambdaTokenTranslator/escaped-only criterion', 'tilde-kept-in-literal-criterion',
+                'a criterion that contains only escaped wildcards ("a~*", "what~?") is an ordinary text literal for the lexer and is compared '
+                'for equality with its tilde: it selects "a~*", not "a*"', loc=loc)
+    else:
+        run.ok('C12.R3', 'LambdaTokenTranslator/escaped-only criterion', 'the tilde escape is handled on the literal path', loc=loc)
     # an operator prefix may be followed by a number or by text ("<>x", "=abc")
     from ..regexmodel import Regex, safety_class
     pats = {k[1] for e in em.pairs[key] for k in e.outcome.world if k[0] == 'match'}
@@ -781,11 +792,168 @@ def _merge(parts):
     return out
 
 
+def _first_chars(alt):
+    """(set of possible first characters or ('not', set) for a negated class, kind) of a scanner alternative"""
+    op, av = alt[0]
+    if op in (sre_c.MAX_REPEAT, sre_c.MIN_REPEAT):
+        op, av = list(av[2])[0]
+    if op is sre_c.LITERAL:
+        return {chr(av)}, False
+    if op is sre_c.NOT_LITERAL:
+        return {chr(av)}, True
+    if op is sre_c.IN:
+        neg = any(o is sre_c.NEGATE for o, _ in av)
+        cs = {chr(a) for o, a in av if o is sre_c.LITERAL}
+        if any(o not in (sre_c.LITERAL, sre_c.NEGATE) for o, _ in av):
+            raise AnalysisError('C12.R7', 'unmodelled class item in the wildcard scanner')
+        return cs, neg
+    raise AnalysisError('C12.R7', f'unmodelled first item {op} of a scanner alternative')
+
+
+def _r7_sub_function(run: Run, cp, fn, pat, call):
+    """_regexp = re.sub(<scanner>, <function>, pattern): every piece of the criterion text is converted by the function"""
+    scanner = _const_of(fn, call.args[0])
+    if scanner is None:
+        raise AnalysisError('C12.R7', '_regexp: the scanner of re.sub is not a constant pattern')
+    fname = call.args[1].id if isinstance(call.args[1], ast.Name) else None
+    conv = next((n for n in ast.walk(fn) if isinstance(n, ast.FunctionDef) and n.name == fname), None)
+    if conv is None:
+        raise AnalysisError('C12.R7', '_regexp: the replacement of re.sub is not a local function')
+    try:
+        parsed = sre_parse.parse(scanner)
+    except Exception as e:
+        run.bad('C12.R7', f'_regexp[{cp.label}]/scanner', 'scanner-invalid', f'the scanner {scanner!r} does not compile: {e}', loc=cp.loc(fn))
+        return
+    alts = _alts(parsed)
+    marg = conv.args.args[0].arg
+    # the local name of the matched text: run = item.group()
+    text_names = {marg + '.group()', marg + '.group(0)', marg + '[0]'}
+    for st in conv.body:
+        if isinstance(st, ast.Assign) and len(st.targets) == 1 and isinstance(st.targets[0], ast.Name) and \
+                ast.unparse(st.value) in text_names:
+            text_names.add(st.targets[0].id)
+
+    def classify_piece(alt):
+        cs, neg = _first_chars(alt)
+        two = len(alt) == 2 and alt[0][0] is sre_c.LITERAL and chr(alt[0][1]) == '~'
+        if two:
+            return 'escape-pair', '~'
+        if not neg and cs == {'~'}:
+            return 'lone-tilde', '~'
+        if not neg and cs == {'?'}:
+            return '?-run', '?'
+        if not neg and cs == {'*'}:
+            return '*-run', '*'
+        if neg and {'?', '*', '~'} <= cs:
+            return 'literal-run', 'x'
+        if not neg and cs & {'?', '*'} and len(cs) > 1:
+            return 'mixed-run', sorted(cs)[0]
+        raise AnalysisError('C12.R7', f'unmodelled scanner alternative starting with {"not " if neg else ""}{sorted(cs)}')
+
+    def result_for(first):
+        """the expression the function returns for a piece whose first character is `first`"""
+        for st in conv.body:
+            if isinstance(st, ast.If):
+                t = st.test
+                ok = None
+                if isinstance(t, ast.Compare) and len(t.ops) == 1 and isinstance(t.ops[0], (ast.Eq, ast.In)) and \
+                        isinstance(t.comparators[0], ast.Constant) and isinstance(t.comparators[0].value, str):
+                    l = ast.unparse(t.left)
+                    base = l[:-3] if l.endswith('[0]') else None
+                    if base in text_names:
+                        ok = first in t.comparators[0].value if isinstance(t.ops[0], ast.In) else first == t.comparators[0].value
+                elif isinstance(t, ast.Call) and isinstance(t.func, ast.Attribute) and t.func.attr == 'startswith' and \
+                        ast.unparse(t.func.value) in text_names and t.args and isinstance(t.args[0], ast.Constant):
+                    ok = first == t.args[0].value
+                if ok is None:
+                    raise AnalysisError('C12.R7', f'_regexp: unmodelled test `{ast.unparse(t)}` in the conversion function')
+                if ok:
+                    rets = [x for x in st.body if isinstance(x, ast.Return)]
+                    if len(rets) != 1 or len(st.body) != 1:
+                        raise AnalysisError('C12.R7', '_regexp: unmodelled branch body in the conversion function')
+                    return rets[0].value
+            elif isinstance(st, ast.Return):
+                return st.value
+            elif isinstance(st, (ast.Assign, ast.Expr)):
+                continue
+            else:
+                raise AnalysisError('C12.R7', f'_regexp: unmodelled statement {type(st).__name__} in the conversion function')
+        return None
+    kinds = {}
+    for i, alt in enumerate(alts):
+        kind, first = classify_piece(alt)
+        kinds[kind] = alt
+        construct = f'_regexp[{cp.label}]/{kind}'
+        if kind == 'mixed-run':
+            run.bad('C12.R7', f'_regexp/scanner alternative {i}', 'mixed-run',
+                    f'alternative {i} of the scanner {scanner!r} matches runs that mix ? and *: the conversion decides per run, so "a?*" no '
+                    f'longer means "a, one character, any run"', loc=cp.loc(fn))
+            continue
+        res = result_for(first)
+        txt = ast.unparse(res).replace(' ', '') if res is not None else 'None'
+        names = '|'.join(sorted(text_names, key=len))
+        import re as _re
+        tn = '(?:' + '|'.join(_re.escape(t_) for t_ in text_names) + ')'
+        if kind == '?-run':
+            ok = bool(_re.fullmatch(r"'\.'\*len\(" + tn + r"\)", txt)) or bool(_re.fullmatch(r"len\(" + tn + r"\)\*'\.'", txt)) or \
+                _merge(_concat_parts(res)) in ([('s', '.{'), ('len',), ('s', '}')],)
+            if not ok and _re.fullmatch(r"'\.\{'\+str\(len\(" + tn + r"\)\)\+'\}'", txt):
+                ok = True
+            run.check(ok, 'C12.R7', construct, 'question-conversion',
+                      f'a run of n `?` is replaced by `{ast.unparse(res)[:60]}`, which is not "exactly n characters"', fact='n times .',
+                      loc=cp.loc(res if res is not None else conv))
+        elif kind == '*-run':
+            ok = isinstance(res, ast.Constant) and res.value in ('.*', '(.*)', '(?:.*)', '[\\s\\S]*')
+            run.check(ok, 'C12.R7', construct, 'star-conversion',
+                      f'a run of `*` is replaced by `{ast.unparse(res)[:60]}`, which is not "any run of characters, possibly empty" (.*)',
+                      fact='.*', loc=cp.loc(res if res is not None else conv))
+        elif kind == 'escape-pair':
+            ok = bool(_re.fullmatch(r"re\.escape\(" + tn + r"\[(?:-1|1|1:)\]\)", txt))
+            run.check(ok, 'C12.R7', construct, 'tilde-kept',
+                      f'an escaped wildcard (~? ~* ~~) is replaced by `{ast.unparse(res)[:60]}`; it must become the escaped character after '
+                      f'the tilde, the tilde itself consumed', fact='re.escape(character after the tilde)', loc=cp.loc(res if res is not None else conv))
+        elif kind in ('literal-run', 'lone-tilde'):
+            ok = bool(_re.fullmatch(r"re\.escape\(" + tn + r"(?:\[-1\]|\[0\])?\)", txt))
+            run.check(ok, 'C12.R7', construct, 'metachars-unescaped',
+                      f'ordinary criterion text is replaced by `{ast.unparse(res)[:60]}`, not by its re.escape: "a.c*" also selects "abcd", '
+                      f'"a(*" raises re.error', fact='re.escape(text)', loc=cp.loc(res if res is not None else conv))
+    need = {'escape-pair', '?-run', '*-run', 'literal-run'}
+    missing = need - set(kinds)
+    run.check(not missing, 'C12.R7', f'_regexp[{cp.label}]/scanner/covers', 'piece-not-scanned',
+              f'the scanner {scanner!r} has no alternative for {sorted(missing)}: such text reaches the regex unconverted',
+              fact='escape pairs, ? runs, * runs and literal text are all scanned', loc=cp.loc(fn))
+    # order: the escape pair must be tried before the lone tilde and before the wildcard runs
+    order = [classify_piece(a)[0] for a in alts]
+    if 'escape-pair' in order:
+        ok = order.index('escape-pair') < min([order.index(k) for k in ('lone-tilde', '?-run', '*-run') if k in order] or [99])
+        run.check(ok, 'C12.R7', f'_regexp[{cp.label}]/scanner/order', 'escape-after-wildcard',
+                  'the escape pair ~? / ~* is not the first alternative: the tilde or the wildcard is consumed by another alternative first',
+                  fact='escape pair first', loc=cp.loc(fn))
+    # literal runs exclude exactly the three special characters, so no special character is swallowed as text
+    if 'literal-run' in kinds:
+        cs, neg = _first_chars(kinds['literal-run'])
+        run.check(cs == {'?', '*', '~'}, 'C12.R7', f'_regexp[{cp.label}]/scanner/literal-class', 'literal-class',
+                  f'literal text is scanned as runs of characters other than {sorted(cs)}; it must exclude exactly ? * ~',
+                  fact='[^?*~]+', loc=cp.loc(fn))
+    # the result of re.sub is what is returned, and the subject is the parameter
+    ok = isinstance(call.args[2], ast.Name) and call.args[2].id == pat
+    run.check(ok, 'C12.R7', f'_regexp[{cp.label}]/subject', 'subject', 're.sub is not applied to the criterion text', fact='re.sub(.., .., pattern)',
+              loc=cp.loc(call))
+
+
 def r7(run: Run, rt):
     for cp in rt.copies():
         fn = cp.members.get('_regexp')
         if fn is None:
             run.bad('C12.R7', f'_regexp[{cp.label}]', 'missing', 'the wildcard -> regex helper is missing', loc=cp.path)
+            continue
+        params0 = [a.arg for a in fn.args.args if a.arg not in ('self', 'cls')]
+        subs_fn = [c for c in ast.walk(fn) if isinstance(c, ast.Call) and ast.unparse(c.func) == 're.sub' and len(c.args) >= 3 and
+                   isinstance(c.args[1], ast.Name)]
+        rets_ = [r for r in ast.walk(fn) if isinstance(r, ast.Return) and r.value is not None and
+                 not any(r in ast.walk(f2) for f2 in ast.walk(fn) if isinstance(f2, ast.FunctionDef) and f2 is not fn)]
+        if len(subs_fn) == 1 and params0 and len(rets_) == 1 and rets_[0].value is subs_fn[0]:
+            _r7_sub_function(run, cp, fn, params0[0], subs_fn[0])
             continue
         params = [a.arg for a in fn.args.args if a.arg not in ('self', 'cls')]
         if not params:
@@ -867,6 +1035,13 @@ def r7(run: Run, rt):
         run.check(s[0][1] in ('.*', '(.*)', '(?:.*)', '.*?', '[\\s\\S]*'), 'C12.R7', f'_regexp[{cp.label}]/* run', 'star-conversion',
                   f'a run of `*` is replaced by {s[0][1]!r}, which is not "any run of characters, possibly empty" (.*)', fact='.*',
                   loc=cp.loc(convs['*']))
+        # replacing by TEXT SEARCH in the pattern that is being rewritten: once a `*` has become `.*`, the next `*` run is searched
+        # from the left again and the first hit is the star inside that `.*` ("*an*" -> "..*an*")
+        if any(p[0] == 's' and '*' in p[1] for p in s):
+            run.bad('C12.R7', '_regexp/* run', 'replacement-rematches',
+                    f'`{ast.unparse(convs["*"])[:70]}` finds the run by searching its text in the pattern that earlier replacements have '
+                    f'already rewritten; the replacement {s[0][1]!r} itself contains `*`, so a second `*` run hits the first replacement: '
+                    f'"*an*" becomes "..*an*"', loc=cp.loc(convs['*']))
         # each conversion replaces one occurrence (the count argument) -- otherwise equal runs elsewhere are rewritten with this length
         for wch, c in convs.items():
             cnt = c.args[2] if len(c.args) > 2 else None
